@@ -4,6 +4,7 @@ import (
 	"fmt"
 	"os"
 	"runtime/debug"
+	"runtime/pprof"
 	"sort"
 	"strconv"
 	"strings"
@@ -26,6 +27,16 @@ func usage() {
 func main() {
 	if len(os.Args) < 2 {
 		usage()
+	}
+	if pf := os.Getenv("SNESVC_PROF"); pf != "" {
+		f, _ := os.Create(pf)
+		pprof.StartCPUProfile(f)
+		go func() {
+			time.Sleep(50 * time.Second)
+			pprof.StopCPUProfile()
+			f.Close()
+			os.Exit(9)
+		}()
 	}
 	switch os.Args[1] {
 	case "check":
